@@ -439,3 +439,26 @@ Definition wv_octets (Y M D h m s z : N) : list N :=
   [Y / 64; (Y mod 64) * 4 + M / 4; (M mod 4) * 64 + D * 2 + h / 16; (h mod 16) * 16 + m / 4;
    (m mod 4) * 64 + s; z].
 Definition wv_zone_ok (z : N) : bool := (65 <=? z) && (z <=? 90) && negb (z =? 74).
+
+(* hypotheses and auxiliary notions of the theorem statements *)
+
+(* the digit loop of atol / strtoul on a decimal text *)
+Definition parse_dec (l : list N) : N := digits_val 10 dec_digit 0 l.
+
+(* which trailing fields a text may leave out *)
+Definition trunc_ok (t : nat) (h m s : N) : Prop :=
+  match t with
+  | 0%nat => True
+  | 1%nat => s = 0
+  | 2%nat => m = 0 /\ s = 0
+  | 3%nat => h = 0 /\ m = 0 /\ s = 0
+  | _ => False
+  end.
+
+Definition wv_fields_ok (Y M D h m s : N) : Prop :=
+  Y <= 4095 /\ M <= 15 /\ D <= 31 /\ h <= 31 /\ m <= 59 /\ s <= 59.
+
+(* what the decoder prints for the zone octet *)
+Definition zone_suffix (z : N) : list N :=
+  if z =? 0 then [90] else if (z <? 65) || (90 <? z) || (z =? 74) then [] else [z].
+
